@@ -239,6 +239,7 @@ PROPS["C03"] = {
                    "(admissible-length table regenerated from the source); the frame decoder (its checked-access version equals the total model: the length guards cover every access; and unescape, escape, CreateVerifyCode, Bcd2Dec and JTMessage.Decode as TRANSLATED from the Go source on every run are proved to return a value for every byte string — source_frame_functions_total); the attachment control frames 0x1210/0x1211/0x1212 for five dialects; "
                    "0x0002, 0x8104, 0x9003, 0x0102, 0x0100, 0x8100, 0x9101, 0x9201, 0x9206, 0x1205, 0x9205, 0x9202, 0x8801, 0x1005 and 0x9208 for every version/dialect; the vendor extensions 0x64, 0x65, 0x67, 0x70 (0x66, open finding F03, is proved to panic exactly on contents of 40 or 40+9n bytes). "
                    "terminal parameters (0x8103, 0x0104: the per-ID table of demanded length / bytes read is regenerated from parseParam's switch on every run, `param_table_safe` is checked by the kernel, and the walk never panics for any count byte and body). "
+                   "In addition, on the code as TRANSLATED from the Go source on every run (JT/Gen/GoModel.lean; theorems of JT/Props/C03Src): 14 loop-free Parse methods (source_body_decoders_total), the four count-driven list decoders 0x8003/0x8800/0x0805/0x9212 (loop invariants), the five decoders that convert BCD timestamps with utils.BCD2Time translated and proved total (0x9201, 0x9202, 0x9205, 0x9206, 0x1005: source_time_decoders_total) and the active-safety decoders 0x1205 (32-bit count, 28-byte records), 0x1210 (alarm-sign block for five dialects, attachment-list loop) and 0x9208 (source_active_safety_decoders_total) return a value for every body and every receiver. "
                    "PARTIAL: the location report with a plugged-in vendor extension has no Lean model of the composition; receiver state and memory behind a slice are not expressible in the value model. For ALL 47 decoders the Go side decides the property by differential execution on every run: "
                    "no panic, no hang, same outcome and same value with and without spare capacity (two poisons) and with a reused receiver, String() total. Modelled decoders are additionally compared outcome-by-outcome with the Lean model (about 58 000 bodies per quick run)."),
     "level_note": "Trusted: Lean kernel; extractors; the Go-side four-way oracle and its generators; memory behind a slice and receiver state are not expressible in the value model (decided by execution only). Open finding F03 (extension 0x66) is excluded by signature.",
